@@ -364,6 +364,47 @@ def run(ctx):
                            "instead of being answered with an error" % (
                                "opened" if "mailbox" in e["attr"] else "claimed", flag,
                                name_attrs[e["attr"]]))
+    # one attribute per name: what is None-tested ("was anything claimed /
+    # opened?"), what the named field is compared with, and what a bare command
+    # falls back to are the same attribute -- the handle of the mailbox object,
+    # say, is cleared when the mailbox is deleted under the connection, the
+    # remembered name is not
+    from .. import roles as _roles_n
+    _Rn = _roles_n.get(model)
+    for a, h in sorted(name_attrs.items()):
+        tested = set()
+        for p in handler_paths(model, h):
+            for (tt, b, site) in p.pc:
+                for x in walk(tt):
+                    if isinstance(x, tuple) and x and x[0] == "isnone":
+                        fa = _flag_attr(x)
+                        if fa:
+                            tested.add(fa)
+        odd = sorted(tested - set(name_attrs))
+        ctx.ob("R17.names", "%s: the None tests that guard the %s name are on %s" % (
+            h, "mailbox" if "mailbox" in a else "nameplate", a), not odd, "",
+            "" if not odd else "%s decides `was anything %s?` by %s is None, but compares "
+            "the named field with %s: once the two differ (the mailbox deleted under the "
+            "connection clears the handle, not the name) a command naming something else is "
+            "carried out, or a bare one is refused" % (
+                h, "opened" if "mailbox" in a else "claimed", odd[0], a))
+        # the id a bare command falls back to
+        ops = (_Rn.open_op, _Rn.release_op)
+        for p in handler_paths(model, h):
+            for e, _ in all_events(p, ("call",)):
+                if e["callee"] not in ops or e["func"] != "WebSocketServer." + h:
+                    continue
+                argvals = [v for _, v in (e.get("argmap") or ())] or list(e["args"])
+                if not argvals:
+                    continue
+                v = plain(argvals[0])
+                if is_client_value(v):
+                    continue
+                okv = v[0] == "attr" and v[1][0] == "obj" and v[1][1] == "WebSocketServer" \
+                    and v[2] in name_attrs
+                ctx.ob("R17.names", "%s: a bare command names what %s remembers" % (h, a),
+                       okv, e, "" if okv else "without the field the operation is given %s, "
+                       "not the remembered name" % show(v)[:50])
     # "is a name remembered?" is a None test: the empty string is a legal
     # identifier, and a truthiness test takes it for "nothing remembered"
     def _truthy_tests(t):
